@@ -1065,6 +1065,8 @@ def core_opcode(e):
     ops = bytes.fromhex(e["ops"])
     if flag(e, "VEX_OP") or flag(e, "XOP_OP"):
         ops = ops[1:]
+    elif len(ops) > 1 and ops[0] == 0x9B:
+        ops = ops[1:]       # wait + x87 instruction: prefixes of the latter sit between the two
     if flag(e, "IMM_OP") or flag(e, "SHORT_ARG"):
         ops = ops[:-1]
     return ops
